@@ -253,12 +253,29 @@ private:
         return {*e, *search};
     }
 
-    static bool value_ref_fits_into_type(
+    // enum's `encodingType` is either a primitive type or a name of a type
+    std::string_view get_enum_primitive_type(const sbe::enumeration& e) const
+    {
+        if(!utils::is_primitive_type(e.type))
+        {
+            if(const auto enc = get_encoding(e.type))
+            {
+                if(const auto t = std::get_if<sbe::type>(enc))
+                {
+                    return t->primitive_type;
+                }
+            }
+        }
+
+        return e.type;
+    }
+
+    bool value_ref_fits_into_type(
         const sbe::enumeration& e,
         const sbe::enum_valid_value& valid_value,
-        const std::string_view type)
+        const std::string_view type) const
     {
-        if(e.type == "char")
+        if(get_enum_primitive_type(e) == "char")
         {
             const auto underlying_value =
                 std::to_string(static_cast<int>(valid_value.value[0]));
